@@ -12,8 +12,18 @@ Open Scope string_scope.
 (* The chains that occur in the regenerated sources: [] for entries without try, and CATCH_ALL. *)
 Definition nonempty_chains : list chain := filter (fun ch => match ch with [] => false | _ => true end) used_chains.
 
+(* the enumerator a clause REPORTS: the one it returns, or -- for a pointer entry returning null -- the one it
+   passes to the error handler *)
 Definition code_of (o : option clause) : option ecode :=
-  match o with Some cl => match c_ret cl with Code c => Some c | _ => None end | None => None end.
+  match o with
+  | Some cl => match c_ret cl with
+               | Code c => Some c
+               | NullPtr => match filter (fun a => match a with Notify (Code _) => true | _ => false end) (c_actions cl) with
+                            | [Notify (Code c)] => Some c | _ => None end
+               | _ => None end
+  | None => None
+  end.
+Definition reported := code_of.
 
 Lemma chains_have_ellipsis : forallb has_ellipsis nonempty_chains = true.
 Proof. vm_compute. reflexivity. Qed.
@@ -27,7 +37,7 @@ Proof. vm_compute. reflexivity. Qed.
 (* the clause table of each chain IS the documented table *)
 Definition chain_table_matches (ch : chain) : bool :=
   forallb (fun c => match table_of ch c, documented c with
-                    | Some cl, Some k => match c_ret cl with Code k' => ecode_eqb k k' | _ => false end
+                    | Some cl, Some k => match code_of (Some cl) with Some k' => ecode_eqb k k' | None => false end
                     | None, None => true
                     | _, _ => false
                     end) all_cls
@@ -52,16 +62,16 @@ Qed.
 Lemma nearest_table : forall ch, chain_table_matches ch = true -> forall l,
   (forall c, In c l -> In c all_cls) ->
   match nearest (table_of ch) l with
-  | Some cl => exists k, c_ret cl = Code k /\ nearest documented l = Some k
+  | Some cl => exists k, code_of (Some cl) = Some k /\ nearest documented l = Some k
   | None => nearest documented l = None
   end.
 Proof.
   intros ch H l. unfold chain_table_matches in H. apply andb_prop in H as [H _].
   rewrite forallb_forall in H.
-  induction l as [|c l IH]; intros Hl; cbn; [reflexivity|].
+  induction l as [|c l IH]; intros Hl; cbn [nearest]; [reflexivity|].
   specialize (H c (Hl c (or_introl eq_refl))).
   destruct (table_of ch c) as [cl|], (documented c) as [k|]; try discriminate.
-  - destruct (c_ret cl) as [k'|]; [|discriminate]. apply ecode_eqb_eq in H. subst. eauto.
+  - destruct (code_of (Some cl)) as [k'|]; [|discriminate]. apply ecode_eqb_eq in H. subst. eauto.
   - apply IH. intros; apply Hl; right; assumption.
 Qed.
 
@@ -87,7 +97,7 @@ Proof.
   - intros c. rewrite (handles_is_nearest ch W U c). unfold spec_handles, documented_code.
     pose proof (nearest_table ch D (ancestors c) (fun x _ => all_cls_complete x)) as N.
     destruct (nearest (table_of ch) (ancestors c)) as [cl|].
-    + destruct N as [k [R ->]]. cbn. now rewrite R.
+    + destruct N as [k [R ->]]. exact R.
     + rewrite N. unfold chain_table_matches in D. apply andb_prop in D as [_ D].
       destruct (code_of (ellipsis_clause ch)) as [[]|]; try discriminate. reflexivity.
   - rewrite (handles_foreign ch U). unfold chain_table_matches in D. apply andb_prop in D as [_ D].
@@ -210,18 +220,6 @@ Qed.
 
 (* Per-entry form of chain_documented, decided by computation for ALL entries and ALL classes
    (1986 x 19 + foreign): an entry whose body throws an exception of class c returns documented_code c. *)
-(* the enumerator a clause REPORTS: the one it returns, or -- for a pointer entry returning null -- the one it
-   passes to the error handler *)
-Definition reported (o : option clause) : option ecode :=
-  match o with
-  | Some cl => match c_ret cl with
-               | Code c => Some c
-               | NullPtr => match filter (fun a => match a with Notify (Code _) => true | _ => false end) (c_actions cl) with
-                            | [Notify (Code c)] => Some c | _ => None end
-               | _ => None end
-  | None => None
-  end.
-
 Definition entry_documented (en : entry) : bool :=
   if e_has_try en then
     forallb (fun c => match reported (handles (e_chain en) (of_class c)) with
